@@ -127,6 +127,11 @@ def scenarios_c11(quick, seed):
             # the entry is due for refresh when the race starts: reads return the old value and hand a reload to the executor; the refresh
             # calculator's reload hook is a gate, so other readers run while the reloaded value is being installed
             out[-1].update(getters=3, bulk=0, refreshers=0, writers=[], outcomes=["val"], stale=1, policy=["random", "pct"][(j // 6) % 2] + "+atcalc")
+        if j % 6 == 3:
+            # nothing is due (refresh an hour after the write, frozen clock, no explicit Refresh): readers race writers of the same key - a reader
+            # that looked the entry up just before it was replaced must not take the retired node for a stale entry
+            out[-1].update(getters=2 + (j // 6) % 2, bulk=0, refreshers=0, outcomes=["val"], writers=[["set"], ["set", "set"], ["compute"], ["set", "compute"]][(j // 12) % 4],
+                           policy=["random", "pct"][(j // 6) % 2])
         if j % 6 == 1:
             # writers that write nothing (a SetIfAbsent that finds the preloaded key present, a computation that cancels itself) run while
             # the reload is in flight: the reload is not disturbed, its result must replace the value before it is delivered
